@@ -786,7 +786,8 @@ func GetDeleteWriteChangelogItems(
 			case storage.OnDuplicateInsertIgnore:
 				// If the tuple exists and the condition is the same, we can ignore it.
 				// We need to use its serialized text instead of reflect.DeepEqual to avoid comparing internal values.
-				if proto.Equal(existingTuple.GetKey().GetCondition(), tk.GetCondition()) {
+				if proto.Equal(existingTuple.GetKey().GetCondition(), tk.GetCondition()) ||
+					ConditionsDifferOnlyInEmptyContext(existingTuple.GetKey().GetCondition(), tk.GetCondition()) {
 					continue
 				}
 				// If tuple conditions are different, we throw an error.
@@ -1199,4 +1200,12 @@ func AddFromUlid(sb sq.SelectBuilder, fromUlid string, sortDescending bool) sq.S
 		return sb.Where(sq.Lt{"ulid": fromUlid})
 	}
 	return sb.Where(sq.Gt{"ulid": fromUlid})
+}
+
+// ConditionsDifferOnlyInEmptyContext reports whether two relationship conditions have the same name
+// and both carry no context values: a condition written without a context is read back with an
+// empty (non-nil) context, which proto.Equal does not consider equal to the absent one.
+func ConditionsDifferOnlyInEmptyContext(a, b *openfgav1.RelationshipCondition) bool {
+	return a != nil && b != nil && a.GetName() == b.GetName() &&
+		len(a.GetContext().GetFields()) == 0 && len(b.GetContext().GetFields()) == 0
 }
